@@ -215,6 +215,9 @@ impl Query {
             let i = if lead_this { i + 1 } else { i };
             match p {
                 Part::Var(v) => {
+                    if i > 0 {
+                        out.push('.');
+                    }
                     out.push('%');
                     out.push_str(v);
                 }
@@ -1183,7 +1186,14 @@ fn add_adversarial(r: &mut Rng, p: &mut Prog, _root: &J) {
                 // extreme indices
                 let idx = *r.pick(&[i32::MIN, i32::MAX, -1, -2, 1000000]);
                 let key = (*r.pick(doc::KEYS)).to_string();
-                lines.push(Line { alts: vec![Clause::Cmp(Cmp { not: false, q: q(vec![Part::Key(key), Part::Idx(idx)]), op: Op::Exists, opnot: r.chance(1, 2), rhs: None, msg: None })] });
+                if r.chance(1, 3) {
+                    // ... on the values of an interpolated variable: `<map>.%ks[n]`
+                    let k2 = (*r.pick(doc::KEYS)).to_string();
+                    lets.push(Let { name: "ks".into(), val: Arg::Lit(J::List(vec![J::Str(k2), J::Str("zz".into())])) });
+                    lines.push(Line { alts: vec![Clause::Cmp(Cmp { not: false, q: q(vec![Part::Key(key), var("ks"), Part::Idx(idx)]), op: Op::Exists, opnot: r.chance(1, 2), rhs: None, msg: None })] });
+                } else {
+                    lines.push(Line { alts: vec![Clause::Cmp(Cmp { not: false, q: q(vec![Part::Key(key), Part::Idx(idx)]), op: Op::Exists, opnot: r.chance(1, 2), rhs: None, msg: None })] });
+                }
             }
             4 => {
                 // chained filters
